@@ -3,7 +3,9 @@ import XmppVerif.Drv.Recv
 import XmppVerif.Drv.Neg
 import XmppVerif.Drv.C06
 import XmppVerif.Drv.C10
+import XmppVerif.Drv.C14
 import XmppVerif.Drv.C15
+import XmppVerif.Drv.C16
 import XmppVerif.Drv.C17
 import XmppVerif.Drv.C19
 import XmppVerif.Drv.C20
@@ -22,7 +24,9 @@ def handlers : List (String × Handler) := [
   ("C12", XmppVerif.Drv.Recv.handlerC12),
   ("C06", XmppVerif.Drv.C06.handler),
   ("C10", XmppVerif.Drv.C10.handler),
+  ("C14", XmppVerif.Drv.C14.handler),
   ("C15", XmppVerif.Drv.C15.handler),
+  ("C16", XmppVerif.Drv.C16.handler),
   ("C17", XmppVerif.Drv.C17.handler),
   ("C19", XmppVerif.Drv.C19.handler),
   ("C20", XmppVerif.Drv.C20.handler)
